@@ -377,10 +377,15 @@ fn merge(a: &mut Stats, b: Stats) {
             (Some(x), Some(y)) => {
                 a.extra.insert(k, json!(x + y));
             }
-            (None, _) => {
+            (None, _) if !a.extra.contains_key(&k) => {
                 a.extra.insert(k, v);
             }
-            _ => {}
+            _ => {
+                // arrays (per-shard campaign records) are concatenated
+                if let (Some(Value::Array(x)), Value::Array(y)) = (a.extra.get_mut(&k), &v) {
+                    x.extend(y.iter().cloned());
+                }
+            }
         }
     }
     a.inconclusive.extend(b.inconclusive);
